@@ -141,12 +141,12 @@ class RespRun:
             run = self
             orig = qh.QueryHandler.handle_assembled_query
 
-            def observed(self_, packets, addr, port, transport, v6_flow_scope):
+            def observed(self_, packets, addr, port, transport, v6_flow_scope, *rest):
                 # harness-side observation of which packets were assembled into one query, and when
                 w.gseq += 1
                 run.assemblies.append({'g': w.gseq, 't_ms': w.now_ms, 'datas': [p.data for p in packets], 'addr': addr,
                                        'port': port})
-                return orig(self_, packets, addr, port, transport, v6_flow_scope)
+                return orig(self_, packets, addr, port, transport, v6_flow_scope, *rest)
 
             w._patch(qh.QueryHandler, 'handle_assembled_query', observed)
             w.run(self._main(w))
